@@ -67,6 +67,7 @@ type flowCase struct {
 	nSends  int  // sends per sender (default 2)
 	slowCb  bool // callbacks contain a scheduling point (a callback that takes a while)
 	noBeat  bool // ping interval of an hour: no heartbeat traffic that could flush a stuck packet
+	pinger  bool // silent revision-3 client that never polls but keeps posting its heartbeat ping every 10s
 	kind    string
 	actor   bool
 	senders []string // "A", "B"
@@ -94,6 +95,9 @@ func (c flowCase) id() string {
 	if c.noBeat {
 		extra += " no-heartbeat"
 	}
+	if c.pinger {
+		extra += " pinging-never-polling"
+	}
 	return strings.TrimSpace(fmt.Sprintf("%s %s senders=%s cb=%v%s %s", c.kind, a, strings.Join(c.senders, ""), c.cb, extra, cl))
 }
 
@@ -115,6 +119,21 @@ func flowBody(c flowCase, oracle string) vsched.Body {
 		}
 		if c.actor {
 			s.startActor()
+		}
+		if c.pinger && s.pc != nil {
+			vsched.GoNamed("pinger", func() {
+				for i := 0; i < 11; i++ {
+					vsched.Sleep(10 * time.Second)
+					if s.rec.Count("close") > 0 {
+						return
+					}
+					r := s.pc.Post([]Pkt{{Type: '2'}})
+					r.Wait()
+					if r.Code != 200 {
+						return
+					}
+				}
+			})
 		}
 		for _, name := range c.senders {
 			ns := 2
@@ -419,6 +438,10 @@ func flowCases(prop string, thorough bool) []flowCase {
 				out = append(out, flowCase{kind: k, actor: false, senders: []string{"A"}, closer: cl})
 				out = append(out, flowCase{kind: k, actor: true, closer: cl})
 				out = append(out, flowCase{kind: k, actor: false, closer: cl})
+			}
+			if k == "polling" {
+				// a revision-3 client that never polls again but keeps sending its heartbeat: a graceful close is still bounded
+				out = append(out, flowCase{kind: "polling3", actor: false, senders: []string{"A"}, closer: "close-false", pinger: true})
 			}
 			for _, cl2 := range []string{"close-true", "server-close"} {
 				out = append(out, flowCase{kind: k, actor: false, senders: []string{"A"}, closer: "close-false", closer2: cl2})
